@@ -21,7 +21,7 @@ var shapeKeys = []string{"a", "b", "c", "d", "k", "list", "sub", "items"}
 
 // oddKeys: legal keys with spellings that the library treats specially somewhere (reserved words of the encoders,
 // attribute/text prefixes, upper case, digits, hyphens, non-ASCII letters); used for about one field in twelve.
-var oddKeys = []string{"doc", "object", "element", "-id", "#text", "K", "k1", "ключ", "a-b", "_seq", "#seq", "-", "A", "a]", "Doc"}
+var oddKeys = []string{"doc", "object", "element", "-id", "#text", "K", "k1", "ключ", "a-b", "_seq", "#seq", "-", "A", "a]", "Doc", "k ", " k", "k\t", "\u00a0k", "k\u2028"}
 
 func drawFieldKey(t *rapid.T) string {
 	if rapid.IntRange(0, 11).Draw(t, "oddkey") == 0 {
@@ -288,10 +288,16 @@ func boostWide(t *rapid.T) (map[string]interface{}, []Step) {
 	if rapid.IntRange(0, 3).Draw(t, "rows") == 0 {
 		// several parents whose final lists together exceed the initial capacity
 		nr := rapid.IntRange(2, 6).Draw(t, "nrows")
+		if rapid.IntRange(0, 2).Draw(t, "manyrows") == 0 {
+			nr = rapid.IntRange(7, 30).Draw(t, "nrows2") // many short lists: the result grows past several capacity steps
+		}
 		rows := make([]interface{}, nr)
 		x := 0
 		for i := range rows {
 			ni := rapid.IntRange(3, 20).Draw(t, "nitems")
+			if rapid.IntRange(0, 9).Draw(t, "longrow") == 0 {
+				ni = rapid.SampledFrom([]int{1, 2, 33, 40, 64, 100}).Draw(t, "nitems2")
+			}
 			items := make([]interface{}, ni)
 			for j := range items {
 				items[j] = float64(x)
@@ -536,6 +542,31 @@ func boostEmptyKey(t *rapid.T) (map[string]interface{}, []Step, string) {
 	var steps []Step
 	for _, n := range names {
 		steps = append(steps, Step{n, -1})
+	}
+	return root, steps, k
+}
+
+// boostDeepLIL: the addressed map sits under N lists nested directly in each other; N also beyond any plausible
+// recursion or iteration bound (a list in a list stands for its members, however deep).
+func boostDeepLIL(t *rapid.T) (map[string]interface{}, []Step, string) {
+	k1 := rapid.SampledFrom(shapeKeys).Draw(t, "k1")
+	k := rapid.SampledFrom(shapeKeys).Draw(t, "k")
+	n := rapid.SampledFrom([]int{1, 2, 3, 5, 31, 32, 33, 63, 64, 65, 99, 100, 101, 102, 103, 127, 128, 129, 150, 255, 256, 257, 400}).Draw(t, "nest")
+	var v interface{} = map[string]interface{}{k: instScalar(t), "z": instScalar(t)}
+	if rapid.Bool().Draw(t, "inner2") {
+		v = map[string]interface{}{"b": map[string]interface{}{k: instScalar(t)}, k: instScalar(t)}
+	}
+	for i := 0; i < n; i++ {
+		l := []interface{}{v}
+		if i == n/2 && rapid.Bool().Draw(t, "sibling") {
+			l = append(l, map[string]interface{}{k: instScalar(t)})
+		}
+		v = l
+	}
+	root := map[string]interface{}{k1: v, "o": instScalar(t)}
+	steps := []Step{{k1, -1}, {k, -1}}
+	if rapid.IntRange(0, 2).Draw(t, "viab") == 0 {
+		steps = []Step{{k1, -1}, {"b", -1}, {k, -1}}
 	}
 	return root, steps, k
 }
